@@ -56,6 +56,19 @@ def sanitize(s):
     return s
 
 
+def has_toplevel_paren(s):
+    """'(' outside every template argument list: a function (pointer/reference) type"""
+    d = 0
+    for ch in s:
+        if ch == '<':
+            d += 1
+        elif ch == '>':
+            d -= 1
+        elif ch == '(' and d == 0:
+            return True
+    return False
+
+
 def split_top(s, sep=','):
     out, depth, cur = [], 0, ''
     for ch in s:
@@ -136,6 +149,7 @@ class Emitter:
         self.cur = None
         self.opaque_types = set()
         self.ec_consts = []
+        self.lib_enums = []
         self.lambdas_of = {}
         self.lambda_types = {}
         self.lambda_ctx = {}
@@ -155,6 +169,18 @@ class Emitter:
         key = name.replace(' ', '')
         if key in self._recnorm:
             return self._recnorm[key]
+        if '<' in key and key.endswith('>'):
+            # non-type arguments: the index prints their value, clang's type spelling their name
+            base = key[:key.index('<')]
+            kargs = split_top(key[key.index('<') + 1:-1])
+            cands = []
+            for q, d in self._recnorm.items():
+                if q.startswith(base + '<') and q.endswith('>'):
+                    qargs = split_top(q[len(base) + 1:-1])
+                    if len(qargs) == len(kargs) and all(a == b or re.match(r'^-?\d+$', a) for a, b in zip(qargs, kargs)) and any(a != b for a, b in zip(qargs, kargs)):
+                        cands.append(d)
+            if len(cands) == 1:
+                return cands[0]
         if '<' in key:
             # class template specialisations print defaulted arguments (", void") inconsistently
             for q, d in self._recnorm.items():
@@ -184,7 +210,17 @@ class Emitter:
         while s.endswith('&'):
             s = s[:-1].strip()
             ref = True
-        ti = self._T(s)
+        stack = self.__dict__.setdefault('_tstack', [])
+        if s in stack or len(stack) > 40:
+            # a typedef chain that leads back to itself: keep the type opaque
+            self.opaque_types.add(s)
+            ti = TI('opq', 'opq_t', name=s)
+        else:
+            stack.append(s)
+            try:
+                ti = self._T(s)
+            finally:
+                stack.pop()
         if ref:
             ti = self._copy(ti)
             ti.ref = True
@@ -240,7 +276,9 @@ class Emitter:
                     return self._T(tgt)
                 finally:
                     self._in_alias2 = False
-        if '(' in s and ')' in s and rd is None and not s.startswith('(lambda at'):
+        if re.match(r'^(boost::asio::cancellation_type|boost::asio::cancellation_type_t)$', s):
+            return TI('int', 'int', name=s)
+        if has_toplevel_paren(s) and rd is None and not s.startswith('(lambda at'):
             # function (pointer/reference) types
             return TI('fn', 'void *', name=s)
         # namespace-scope type aliases of the repository (byte_citer, packet_id, ...)
@@ -748,6 +786,18 @@ class Emitter:
             base = tmp
         for i, b in enumerate(binds):
             acc = self.lib.tuple_get(self, ti, base, i) if self.lib else None
+            if acc is None and ti.kind == 'opq' and self.opaque_ok:
+                # element of an opaque tuple: accessor stub (std::get<i>)
+                bt = qt(b) or (qt(b['inner'][0]) if b.get('inner') else '')
+                bti = self.T(bt)
+                if bti.kind in ('int', 'ec', 'it', 'dur'):
+                    key = 'stub__tuple_get_%d__%s' % (i, bti.mangle())
+                    self.stubs[key] = (bti.c, ['opq_t'])
+                    acc = ('%s(%s)' % (key, base), bti)
+                else:
+                    key = 'stub__tuple_getref_%d__%s' % (i, bti.mangle())
+                    self.stubs[key] = (bti.c + ' *', ['opq_t'])
+                    acc = ('(*%s(%s))' % (key, base), bti)
             if acc is None:
                 raise Unsupported('structured binding over %s' % ti.c)
             expr, eti = acc
@@ -1230,6 +1280,10 @@ class Emitter:
             if not n.get('inner'):
                 return '((%s)0)' % ti.c
             return self.e(n['inner'][0])
+        if ti.kind not in ('rec', 'array'):
+            if not n.get('inner'):
+                return '((%s){0})' % ti.c if ti.kind in ('pair', 'opt', 'vec', 'sv', 'str') else '((%s)0)' % ti.c
+            raise Unsupported('braced initialiser of %s' % ti.c)
         t = self.cur.temp(ti)
         st = self.init_lvalue(t, ti, n)
         return '(%s %s)' % (' '.join(x.rstrip(';') + ',' for x in st), t)
@@ -1406,21 +1460,44 @@ class Emitter:
                 a.append(self.addr(x))
                 atys.append(ti.c + ' *')
             elif ti.kind == 'fn':
-                a.append('0 /*callable*/')
+                y = x
+                while y.get('kind') in ('ImplicitCastExpr', 'ParenExpr'):
+                    y = y['inner'][0]
+                if y.get('kind') == 'DeclRefExpr':
+                    a.append('0 /*callable*/')
+                else:
+                    # a completion token built by library calls (asio::prepend(std::move(*this), ...)):
+                    # evaluated for its effects on the ghost counters
+                    a.append('((opq_t)%s)' % self.e(x))
                 atys.append('opq_t')
             elif byref_out or ti.kind in ('rec',) or (x.get('valueCategory') != 'prvalue' and ti.kind not in ('int', 'ptr', 'opq', 'ec', 'it', 'dur', 'vit', 'nullopt')):
                 a.append(self.addr(x))
                 # only arguments bound to non-const lvalue references may be changed by the callee
                 atys.append(ti.c + (' *' if byref_out else ' * /*in*/'))
             else:
-                a.append(self.e(x))
+                y = x
+                while y.get('kind') in ('ImplicitCastExpr', 'ParenExpr') and y.get('castKind', 'NoOp') in ('DerivedToBase', 'UncheckedDerivedToBase', 'NoOp'):
+                    y = y['inner'][0]
+                if ti.kind == 'opq' and y is not x and self.T(qt(y)).kind == 'rec' and y.get('valueCategory') == 'lvalue':
+                    # a repository object seen through a library base class: its address is the handle
+                    a.append('((opq_t)(long)%s)' % self.addr(y))
+                    atys.append('opq_t')
+                    continue
+                ex = self.e(x)
+                mm = re.match(r'^\(\*\(g_moved_self\+\+, (\w+)\)\)$', ex)
+                if mm and ti.kind == 'opq':
+                    # std::move(*this) handed to an opaque callee: the handle of the operation
+                    ex = '((opq_t)(g_moved_self++, (long)%s))' % mm.group(1)
+                a.append(ex)
                 atys.append(ti.c)
         sname = 'stub__' + name
         for pat, rep in getattr(self, 'stub_aliases', []):
             if re.search(pat, sname):
-                sname = rep
+                sname = re.sub(pat, rep, sname)
                 break
-        retc = rti.c + (' *' if rti.ref else '')
+        # a call expression that is an lvalue returns a reference
+        isref = rti.ref or (n.get('valueCategory') == 'lvalue' and rti.kind != 'void')
+        retc = rti.c + (' *' if isref else '')
         key = sname
         k = 2
         while key in self.stubs and self.stubs[key] != (retc, atys):
@@ -1428,7 +1505,7 @@ class Emitter:
             k += 1
         self.stubs[key] = (retc, atys)
         call = '(%s%s(%s))' % (self.note_call(key), key, ', '.join(a))
-        return '(*%s)' % call if rti.ref else call
+        return '(*%s)' % call if isref else call
 
     def e_CXXMemberCallExpr(self, n):
         rd, full, cnode = self.callee_decl(n)
